@@ -100,6 +100,11 @@ func (s *rgState) gc() {
 	}
 }
 
+func (s *rgState) setGC(g int64) {
+	s.ops = append(s.ops, "I:"+strconv.FormatInt(g, 10))
+	s.gci = g
+}
+
 func (s *rgState) tick(d int64) {
 	if d < 0 {
 		d = 0
@@ -564,6 +569,8 @@ func genValidHistory(rng *rand.Rand, thorough bool, forceAuto int, slots bool) s
 		case r < 78:
 			s.gc()
 			s.gc()
+		case r < 82: // GCInterval is an exported field: manual mode first and automatic later, or the reverse
+			s.setGC(pick(rng, 0, 0, -1, 1, ttl/4, ttl/2, ttl, 2*ttl))
 		default:
 			s.randomReplay(rng, 15)
 		}
